@@ -274,3 +274,58 @@ def ranking(ctx):
     for m in mism[:3]:
         print("GROWTH-MISMATCH module=Ranking %s" % m)
     return mism
+
+
+def _rdp_proj(loc):
+    if "stack" in loc and "reduced" in loc:
+        return {"stack": [[int(a), int(b)] for a, b in loc["stack"]], "nred": len(loc["reduced"])}
+    return None
+
+
+def _rdp_steps_record(item):
+    import random
+    import kneeliverse.rdp as rdp
+    import kneeliverse.metrics as metrics
+    from harness import curves, monitor, enums
+    cid, seed = item
+    rng = random.Random(seed)
+    P = curves.random_curve(rng, 2, 40) if rng.random() < 0.8 else curves.adversarial()[rng.randrange(19)]
+    n = len(P)
+    cost = rng.choice(["smape", "rpd", "rmspe", "rmsle", "r2"])
+    t = rng.choice([0.5, 0.1, 0.01, 0.001]) if cost != "r2" else rng.choice([0.5, 0.9, 0.99])
+    dist = rng.choice(["shortest", "perpendicular"])
+    out, val, cnt = monitor.call(rdp.rdp, (P, t), {"distance": enums.pick(rdp.Distance, dist), "cost": enums.pick(metrics.Metrics, cost)},
+                                 budget=monitor.quad(n), wall=30, per={"rdp": 8 * n + 64}, snap={"rdp": _rdp_proj})
+    snaps = list(monitor._state["snaps"])
+    if out != "returned":
+        return None
+    return {"id": cid, "n": n, "events": snaps, "final": [int(v) for v in np.asarray(val[0]).tolist()],
+            "_backedges": cnt.get("rdp", 0)}
+
+
+def rdp_steps(ctx):
+    """Trace_RdpSteps.tla: action-level trace validation of rdp.rdp against Rdp.tla's own actions (frame-local snapshots at the
+    work loop's back-edges; TLC infers the oracle values).  Notes only: a rewrite of the loop legitimately leaves the machine."""
+    items = [("rs%d" % k, ctx.seed * 5003 + k) for k in range(200 if ctx.quick else 2000)]
+    rec = [r for r in par.pmap(_rdp_steps_record, items) if r is not None]
+    anchored = [r for r in rec if len(r["events"]) == r["_backedges"]]
+    info = {"calls_recorded": len(rec), "calls_with_snapshots": len(anchored), "loop_iterations_validated": sum(len(r["events"]) + 1 for r in anchored),
+            "what": "every work-loop iteration of rdp.rdp (local stack and number of retained indices read from the running frame at "
+                    "each back-edge) must be an RdpAccept / RdpSplit step of spec/Rdp.tla, the last one must empty the stack and Finish "
+                    "must yield the returned indices; TLC infers the unlogged oracle values; beyond the listed properties, note only"}
+    if len(anchored) < len(rec) // 2:
+        info["skipped"] = "the locals `stack` / `reduced` were not found in rdp.rdp's frame (the loop has been rewritten): not applicable"
+        ctx.extra.setdefault("growth", {})["RdpSteps"] = info
+        return []
+    good = {"id": "s", "n": 8, "events": [{"stack": [[2, 8], [0, 3]], "nred": 0}, {"stack": [[2, 8], [1, 3], [0, 2]], "nred": 0},
+                                           {"stack": [[2, 8], [1, 3]], "nred": 1}, {"stack": [[2, 8]], "nred": 2},
+                                           {"stack": [[4, 8], [2, 5]], "nred": 2}, {"stack": [[4, 8]], "nred": 3}], "final": [0, 1, 2, 4, 7]}
+    rej = ctx.trace("Trace_RdpSteps", [{k: r[k] for k in ("id", "n", "events", "final")} for r in anchored], chunk=400,
+                    selftest=[(good, "ok"), (dict(good, final=[0, 1, 2, 5, 7]), "no-machine-step"),
+                              ({"id": "s", "n": 3, "events": [{"stack": [[2, 3], [0, 3]], "nred": 0}], "final": [0, 2]}, "no-machine-step")])
+    mism = [{"case": cid, "clause": vs[0][0], "detail": [str(v)[:100] for v in vs[0][1:4]]} for cid, vs in rej.items()]
+    info.update(mismatches=len(mism), first_mismatches=mism[:3])
+    ctx.extra.setdefault("growth", {})["RdpSteps"] = info
+    for m in mism[:3]:
+        print("GROWTH-MISMATCH module=RdpSteps %s" % m)
+    return mism
